@@ -2,7 +2,8 @@
 # run every registered quick (or thorough) check; print one line each
 TIER=${1:-quick}
 cd "$(dirname "$0")/.."
-for c in C01 C02 C03 C04 C05 C06 C07 C08 C09 C10 C11 C12 C13 C14 C15 C17 C18 C19 C20; do
+LIST=${2:-"C01 C02 C03 C04 C05 C06 C07 C08 C09 C10 C11 C12 C13 C14 C15 C17 C18 C19 C20"}
+for c in $LIST; do
   s=$(date +%s)
   out=$(bin/check $c --tier $TIER 2>&1); rc=$?
   e=$(date +%s)
